@@ -94,9 +94,16 @@ package raftlog
 //@     set fi = ret0
 //@     set li = ret1
 //@     set asked = true
+//@   ghost cur0 Ptr = nil
+//@   ghost locked bool = false
+//@   call Lock on l.filesSync
+//@     set cur0 = l.current
+//@     set locked = true
+//@   call .Name
+//@     frame nothing
 //@   call (*logFile).delete
 //@     frame nothing
-//@     set curDel = curDel || recv == old(l.current)
-//@   ensures result == nil && asked && li >= 0 && fi != -1 ==> curDel
+//@     set curDel = curDel || recv == cur0
+//@   ensures result == nil && asked && li >= 0 && fi != -1 ==> curDel && locked
 //@   loop 1
-//@     invariant curDel || (rangeindex < len(extra) - 1 && extra[len(extra)-1] == old(l.current))
+//@     invariant locked && (curDel || (rangeindex < len(extra) - 1 && extra[len(extra)-1] == cur0))
